@@ -408,6 +408,32 @@ func runHistory(hc histCase) {
 					saved = true
 				}
 			}
+		case "C": // Config.SetCredentialsStore(o.Addr)
+			var err error
+			var pan any
+			func() {
+				defer func() { pan = recover() }()
+				err = credentials.VerifSetCredentialsStore(fs, o.Addr)
+			}()
+			if pan != nil {
+				fail("panic", fmt.Sprintf("SetCredentialsStore(%q) panicked: %v", o.Addr, pan))
+				run.Evaluations++
+				return
+			}
+			res = resultStr(nil, err)
+			modelOps = append(modelOps, "C "+common.Hex(o.Addr))
+			if err != nil {
+				fail("setcs-error", fmt.Sprintf("SetCredentialsStore(%q) failed: %v", o.Addr, err))
+			} else {
+				saved = true
+				nontrivial = true
+				wantCS = o.Addr
+				if o.Addr != "" {
+					wantTop["credsStore"] = jstr(o.Addr).canon()
+				} else {
+					delete(wantTop, "credsStore")
+				}
+			}
 		case "D":
 			_, had := wantEntry[o.Addr]
 			err, pan := safeDelete(fs, o.Addr)
